@@ -52,10 +52,21 @@ func c13GenFile(r *Rng, idx int) (string, []c13Decl) {
 	kinds := []string{"local-number", "local-string", "local-table", "global", "global-function", "local-function", "member-dot", "member-colon",
 		"local-alias", "global-alias", "member-alias"}
 	n := r.Range(4, 9)
+	libUsed := map[string]bool{}
 	lines = append(lines, fmt.Sprintf("local host%d = {}", idx))
 	for i := 0; i < n; i++ {
 		d := c13Decl{Kind: kinds[r.Intn(len(kinds))], Place: places[r.Intn(len(places))], Script: scripts[r.Intn(len(scripts))], Marker: markers[r.Intn(len(markers))]}
 		d.Name = fmt.Sprintf("h%dsym%d", idx, i)
+		if (d.Kind == "local-number" || d.Kind == "local-string") && r.Fork(uint64(0x6c6962+i)).Chance(1, 5) {
+			// a local named like a library function or module: the hover describes the declaration, not the library
+			for _, ln := range r.Fork(uint64(0x6c6963 + i)).Perm(len(c13LibraryNames)) {
+				if !libUsed[c13LibraryNames[ln]] {
+					d.Name = c13LibraryNames[ln]
+					libUsed[d.Name] = true
+					break
+				}
+			}
+		}
 		txts := c13Scripts[d.Script]
 		pick := func() string { return txts[r.Intn(len(txts))] + fmt.Sprintf(" %d", r.Intn(1000)) }
 		var block []string
@@ -431,3 +442,6 @@ func runC13(c *Ctx) {
 		"(--, ---, -- *); hover at the declaration, at a use, and (globals) at a use in a companion document whose own lines all carry comments, must show a label with the identifier, `local` iff declared local, the literal as written, parameters "+
 		"in order, and as documentation exactly the attached comment's bytes (after the tool's documented marker clean-up). distinct_nontrivial = distinct (file, position) hovered", 200)
 }
+
+// names of library functions and modules a program may use for its own locals
+var c13LibraryNames = []string{"next", "file", "type", "select", "table", "string", "os", "io", "math", "debug", "error", "load", "pairs", "ipairs", "tostring", "unpack", "coroutine", "package", "utf8"}
